@@ -435,7 +435,8 @@ class CsvUnit(corr.Unit):
             cols = list(a["rows"][0].keys())
             with open(f, "w", newline="") as fh:
                 w = csv.DictWriter(fh, fieldnames=cols)
-                w.writeheader()
+                # column names are documented as case-insensitive: the optional columns are written capitalised (round-4 seed C19-s10)
+                fh.write(",".join(c.capitalize() if c in ("vehicle_id", "connect_cs") else c for c in cols) + "\r\n")
                 w.writerows(a["rows"])
             ns = base_args(tmp, "csv", seed=a["seed"], days=a["days"], interval=a["interval"], min_soc=float(a["min_soc"]),
                            input_file=f, vehicle_types=os.path.join(C.REPO, "examples/data/vehicle_types.json"),
@@ -600,7 +601,7 @@ def replay(payload):
 
 
 # ---------------------------------------------------------------------------- SimBEV generator (no Coq model)
-SIMBEV_TYPES = {"bev_mini": (60, 0.1397, 11.0, 50), "bev_medium": (90, 0.1746, 22.0, 50), "phev_mini": (14, 0.1425, 3.7, 40)}
+SIMBEV_TYPES = {"bev_mini": (60.6, 0.1397, 11.0, 50), "bev_medium": (90, 0.1746, 22.0, 50), "phev_mini": (14.9, 0.1425, 3.7, 40)}   # fractional capacities occur
 
 
 def gen_simbev(rng):
